@@ -2,15 +2,6 @@
 
 HOOK_COMMITS = []
 
-META = {
-    "C07": {
-        "text": "Machine-checked Lean 4 theorems about the model of ReplicatedValue::merge (all six CRDT kinds, outer stamp, expiry, vector clock, rf): idempotence for every well-formed value, commutativity for every tie-consistent pair (incl. cross-kind, tombstones, equal times from different replicas), associativity for same-kind triples; the full associativity statement is refuted by a kernel-checked counterexample (known finding). No bound on map sizes, stamps or payloads. The model is tied to /repo on every run by a differential correspondence check against the real merge on generated values (reachable through ShardReplicaState ops + delivery, boundary stamps, CRDT API, nested merges).",
-        "design_ref": "DESIGN.md §4 C07, §3 M1",
-        "note": "Trusted: Lean kernel; hand-written model M1 + correspondence harness (differential testing, bounded by generator quality); serde for reading private fields. Commutativity needs TieConsistent (decidable; reachable values satisfy it when C08 holds). Cross-kind associativity is a recorded known finding.",
-        "technique": "Lean 4 proof (algebraic laws via extensionality of canonical sorted maps) + model/implementation correspondence check",
-    },
-}
-
 _NA = {
     "C20": "Reproducibility relates two runs of the Rust harnesses whose only possible difference is hidden process state (RandomState seeds, wall clock, scheduling); a Lean model is a pure function of (seed, config), so the theorem would be true for the wrong reason and no code change could break it — see DESIGN.md §7.",
 }
